@@ -8,7 +8,7 @@ model; every result and every complete state dump must be identical.
   * random long histories over capacities 1, 2, 3, 4, 8;
   * breadth-first enumeration of the reachable states for capacities 1 and 2 (every legal
     operation from every state found, bounded number of outstanding handles), flagged
-    `exhaustive` in the evidence with whether the fixpoint was reached.
+    `exhaustive_enumerations` in the evidence with whether the fixpoint was reached.
 Second tie: engine "cache-ring" — the extracted *pointer-level* model (Cache/CacheRing.v: next/prev
 arrays, split, counters, in-flight head) replays the same histories; its complete line, including
 the raw next/prev/split/inflight members, must equal what the driver printed from the real structure.
@@ -439,5 +439,8 @@ def check(run):
             plan = [(1, 3, 2, 10 ** 6, 10 ** 6), (1, 4, 3, 10 ** 6, 10 ** 6), (2, 5, 3, 150000, 600000)]
         for cap, nkeys, maxrefs, max_states, max_hist in plan:
             ex.append(bfs(run, exe, cap, nkeys, maxrefs, max_states, max_hist))
-    run.cov["exhaustive"] = ex
-    run.cov["engines"]["cache"]["exhaustive"] = ex
+    # schema: coverage.exhaustive is a boolean (true only if every enumeration reached its fixpoint);
+    # the per-enumeration figures live beside it
+    run.cov["exhaustive"] = bool(ex) and all(e.get("fixpoint_reached") for e in ex)
+    run.cov["exhaustive_enumerations"] = ex
+    run.cov["engines"]["cache"]["exhaustive_enumerations"] = ex
